@@ -439,6 +439,10 @@ def special_items():
                ("special", "ignored-record-variant", "none", "plain", "ignore"))
     yield Item(["Unwrap", "TryUnwrap"], "#[unwrap(ref, ref_mut)]\n#[try_unwrap(ref, ref_mut)]\npub enum @N@<T> { A(T), #[unwrap(ignore)] #[try_unwrap(ignore)] N { x: T }, U }",
                ("special", "ignored-record-variant", "T", "plain", "ref,ref_mut+ignore"))
+    # generic Error whose source is an associated type of a parameter (the bound must be put on the projection)
+    yield Item(["Error", "Display", "Debug"], '#[display("e")]\npub struct @N@<T: Tr> { source: <T as Tr>::Assoc }', ("special", "error-assoc-source", "T", "plain", "qself"))
+    yield Item(["Error", "Display", "Debug"], '#[display("e")]\npub struct @N@<T: Tr>(T::Assoc);', ("special", "error-assoc-source", "T", "plain", "path"))
+    yield Item(["Error", "Display", "Debug"], '#[display("e")]\npub enum @N@<T: Tr, U> { A { source: <T as Tr>::Assoc }, B(::std::boxed::Box<U>), C }', ("special", "error-assoc-source", "T,U", "plain", "enum"))
     # a tuple TYPE listed for an item with a single field is one conversion source/target, not a field list
     yield Item(["From"], "#[from((::std::net::IpAddr, u16))]\npub struct @N@(::std::net::SocketAddr);", ("special", "tuple-type-for-single-field", "none", "plain", "from"))
     yield Item(["From", "Into"], "#[from((i32, i64))]\n#[into((i32, i64))]\npub struct @N@((i32, i64));", ("special", "tuple-type-for-single-field", "none", "plain", "from+into"))
